@@ -392,6 +392,44 @@ func Run(p Plan) (v hk.Verdict) {
 			return v
 		}
 
+		// records are independent: encoding another resource with the same marshaler leaves an earlier record intact
+		saved := bytes.Clone(enc)
+		other := r.DeepCopy()
+		other.Metadata().Labels().Set("zz-second", "record")
+
+		enc2, err := m.MarshalResource(other)
+		if err != nil {
+			v.Failf("stack %v MarshalResource (second record): %v", p.Stack, err)
+
+			return v
+		}
+
+		if !bytes.Equal(enc, saved) {
+			v.Failf("stack %v (thresholds %v): the %d-byte record returned by MarshalResource changed when another resource was encoded with the same marshaler", p.Stack, p.MinSz, len(saved))
+
+			return v
+		}
+
+		if r4, err := m.UnmarshalResource(enc); err != nil {
+			v.Failf("stack %v: first record no longer decodes after a second one was encoded: %v", p.Stack, err)
+
+			return v
+		} else if d := sameResource(r, r4, true); d != "" {
+			v.Failf("stack %v: first record decodes differently after a second one was encoded: %s", p.Stack, d)
+
+			return v
+		}
+
+		if r5, err := m.UnmarshalResource(enc2); err != nil {
+			v.Failf("stack %v: second record does not decode: %v", p.Stack, err)
+
+			return v
+		} else if d := sameResource(other, r5, true); d != "" {
+			v.Failf("stack %v: second record: %s", p.Stack, d)
+
+			return v
+		}
+
 		plain, _ := store.ProtobufMarshaler{}.MarshalResource(r)
 
 		for i, l := range p.Stack {
